@@ -343,7 +343,9 @@ example : Crash.CodecOK Witness.fileCfg ∧ (∀ a b, Witness.fileCfg.h a = Witn
   ⟨Witness.fileCfg_ok, fun _ _ h => h, Witness.sqlCfg_ok⟩
 -- the conclusion exercised on the model of `MemoryCache` itself: `one/add-2` on the empty memory cache returns 3, executes
 -- `one` and `add`, and leaves ready entries for `one/add-2` and `one`; evaluated again on the cache it left, it returns 3
--- and executes no command.  The same through the file, SQL and proxied memory models.
+-- and executes no command.  A history through the proxied memory model: `one/add-~X~/one~E` executes three commands, then
+-- `one/add-2` only `add` (its prefix `one` is served), then nothing.  (The file/SQL witnesses of C13 are unary Gödel
+-- numberings: lawful, not runnable.)
 open Ex in
 example :
     let r1 := evalVia memCOps codecT env0 9 40 [] qOneAdd (s "one/add-2")
@@ -357,10 +359,6 @@ example :
 open Ex in
 example :
     let h := [(qLink, s "one/add-~X~/one~E"), (qOneAdd, s "one/add-2"), (qOneAdd, s "one/add-2")]
-    ((evalViaHist (fileCOps Witness.fileCfg) codecT env0 9 60 [] h).2.map (fun o => (o.1.obs.map (·.value), o.2.length))) =
-      [(some (some (.int 2)), 3), (some (some (.int 3)), 1), (some (some (.int 3)), 0)] ∧
-    ((evalViaHist (sqlCOps Witness.sqlCfg) codecT env0 9 60 {} h).2.map (fun o => (o.1.obs.map (·.value), o.2.length))) =
-      [(some (some (.int 2)), 3), (some (some (.int 3)), 1), (some (some (.int 3)), 0)] ∧
     ((evalViaHist (proxyCOps memCOps) codecT env0 9 60 [] h).2.map (fun o => (o.1.obs.map (·.value), o.2.length))) =
       [(some (some (.int 2)), 3), (some (some (.int 3)), 1), (some (some (.int 3)), 0)] := by
   decide +kernel
